@@ -46,6 +46,8 @@ func pureBlockEnding(b *ssa.BasicBlock, wantIf bool) bool {
 			if !last || wantIf {
 				return false
 			}
+		case *ssa.Return:
+			return false
 		case *ssa.BinOp, *ssa.ChangeType, *ssa.Field, *ssa.FieldAddr, *ssa.Extract,
 			*ssa.MakeInterface, *ssa.ChangeInterface, *ssa.DebugRef, *ssa.IndexAddr, *ssa.Index:
 		case *ssa.UnOp:
@@ -276,6 +278,114 @@ func (in *interp) tryMerge(fr *frame, b, s0, s1 *ssa.BasicBlock, cond *Sym) (mer
 	}
 	fr.prevBlock, fr.block = predT, j
 	fr.phisDone = true
+	return true
+}
+
+// pureReturnBlock: single predecessor, side-effect-free instructions, ending in a Return.
+func pureReturnBlock(b *ssa.BasicBlock) bool {
+	if len(b.Preds) != 1 || len(b.Instrs) > 24 || len(b.Instrs) == 0 {
+		return false
+	}
+	for i, ins := range b.Instrs {
+		last := i == len(b.Instrs)-1
+		switch x := ins.(type) {
+		case *ssa.Return:
+			return last && len(x.Results) >= 1
+		case *ssa.BinOp, *ssa.ChangeType, *ssa.Field, *ssa.Extract, *ssa.DebugRef:
+		case *ssa.UnOp:
+			if x.Op == token.ARROW || x.Op == token.MUL {
+				return false
+			}
+		case *ssa.Convert:
+			if _, ok := x.Type().Underlying().(*types.Basic); !ok {
+				return false
+			}
+			if b, ok := x.X.Type().Underlying().(*types.Basic); !ok || b.Info()&types.IsString != 0 {
+				return false
+			}
+			if b := x.Type().Underlying().(*types.Basic); b.Info()&types.IsString != 0 {
+				return false
+			}
+		default:
+			return false
+		}
+	}
+	return false
+}
+
+var retMergeCache sync.Map // mergeKey -> bool
+
+// tryMergeReturns folds `if c { return a }; return b` (both arms pure blocks ending in a
+// Return of scalar values) into a single return of ite(c, a, b).
+func (in *interp) tryMergeReturns(fr *frame, b, s0, s1 *ssa.BasicBlock, cond *Sym) bool {
+	if in.noMerge || s0 == s1 {
+		return false
+	}
+	key := mergeKey{b, s0, s1}
+	var okShape bool
+	if v, ok := retMergeCache.Load(key); ok {
+		okShape = v.(bool)
+	} else {
+		okShape = pureReturnBlock(s0) && pureReturnBlock(s1) &&
+			len(s0.Instrs[len(s0.Instrs)-1].(*ssa.Return).Results) == len(s1.Instrs[len(s1.Instrs)-1].(*ssa.Return).Results)
+		retMergeCache.Store(key, okShape)
+	}
+	if !okShape {
+		return false
+	}
+	var res [2][]value
+	ok := func() (ok bool) {
+		in.spec++
+		defer func() {
+			in.spec--
+			if r := recover(); r != nil {
+				switch r.(type) {
+				case specAbort, runtimePanic, targetPanic:
+					ok = false
+				default:
+					panic(r)
+				}
+			}
+		}()
+		for k, blk := range []*ssa.BasicBlock{s0, s1} {
+			saveB, saveP := fr.block, fr.prevBlock
+			fr.block, fr.prevBlock = blk, b
+			for _, ins := range blk.Instrs {
+				if ret, isRet := ins.(*ssa.Return); isRet {
+					for _, r := range ret.Results {
+						res[k] = append(res[k], fr.get(r))
+					}
+					break
+				}
+				in.visitInstr(fr, ins)
+			}
+			fr.block, fr.prevBlock = saveB, saveP
+		}
+		return true
+	}()
+	fr.block = b
+	if !ok {
+		return false
+	}
+	out := make([]value, len(res[0]))
+	for i := range res[0] {
+		vt, ve := res[0][i], res[1][i]
+		kt, ok1 := kindOfValue(vt)
+		ke, ok2 := kindOfValue(ve)
+		if ok1 && ok2 && kt == ke {
+			out[i] = in.mk(kt, in.tp.Ite(cond.T, in.termOf(vt), in.termOf(ve)))
+		} else if sameRef(vt, ve) {
+			out[i] = vt
+		} else {
+			return false
+		}
+	}
+	if len(out) == 1 {
+		fr.result = out[0]
+	} else {
+		fr.result = tuple(out)
+	}
+	fr.block = nil
 	return true
 }
 
